@@ -83,6 +83,29 @@ NEEDS = {
     "C17-F": "a comparison of two distinct equal-length tables with different content, then a later run in which the allocator hands back the same two addresses",
     "C18-E": "a host function calling a native function value via run_function with an argument kind a typed parameter rejects, the host carrying on after the error",
     "C18-F": "a script callee invoked via run_function that fails at call depth 2 or more inside the callee, the host surviving the error",
+    # fourth round (ids G / H): evaluated blind, nothing was added to the checks between reading the reports and the evaluation
+    "C02-G": "a running closure with a captured variable that is reachable only indirectly (stored in a table, or called from the expression that created it), a collection during the call, the captured variable used afterwards",
+    "C02-H": "min_by_key / max_by_key on a table with object values, a key function that replaces or removes the winning entry, a collection exactly inside the allocation of the result row",
+    "C03-G": "a host function that tolerates its callback's failure and a callback that uses the budget up: whatever runs afterwards in the same run runs without limit",
+    "C03-H": "two runs on one VM: one that completes with budget to spare, then another (whose budget is then the leftover, not max_instr)",
+    "C04-G": "a pair of tables reached again at least twice while it is being compared (t[1]=t; t[2]=t; t==t)",
+    "C04-H": "a script callback of __min / __max / __sort that fails while it owns nothing on the value stack (budget expiring at its first instruction, call stack exhausted at callback entry, ...)",
+    "C05-G": "a collection in which every object is reachable, followed by another collection",
+    "C05-H": "a request that crosses the limit only because of garbage, with live + s <= limit < live + 2s (large strings, storage of a growing table)",
+    "C07-G": "two distinct real keys closer than f64::EPSILON in one table and a host remove of one of them",
+    "C07-H": "a collection that begins exactly in one of the allocations of the \"value\" string inside NthRow",
+    "C09-G": "a key function that is not pure (counts its calls, pops a queue)",
+    "C09-H": "a filter / any callback that returns a function, closure or native function value",
+    "C12-G": "a key whose hash is the reserved value 0",
+    "C12-H": "a key type with drop glue and a removal that shifts at least one entry back",
+    "C13-G": "a table that went through serde with an entry count that is a power of two >= 4 (or larger than the size hint), then a lookup of an absent handle",
+    "C13-H": "capacity >= 16 and a remove whose adjacent successor has a different home slot and an odd handle",
+    "C15-G": "a closure that captures a variable and value-stack (or memory) exhaustion exactly at the capture (CopyLast / RegisterUpvalue)",
+    "C15-H": "a one-card function directly followed, across a module boundary, by a function with the same index whose first card is a leaf that fails",
+    "C17-G": "a program that creates empty strings, then clear (or enough of them)",
+    "C17-H": "host code that hands objects back with ObjectGcGuard::into_inner, repeated runs without clear",
+    "C18-G": "a failing callee that created a closure over one of its locals and stored it in a global, a host that swallows the failure, the escaped closure called later",
+    "C18-H": "a non-nil argument that does not convert, passed to an optional (Nilable) parameter of a host function",
 }
 
 confirm = {}
